@@ -49,6 +49,9 @@ def match_predicate(case):
             return "F15a"                # library transport ∧ ssh config has Port for the host ∧ port omitted
         if port is not None and port != cfgp:
             return "F15b"                # library transport ∧ ssh config Port ∧ a different explicit port
+    if case["transport"] == "system" and not dest_plain(case.get("dialed_host", host.strip())) and \
+            k in ("user-precedence", "port-precedence", "argv-dest", "argv-user", "argv-port", "handed-ne-reported"):
+        return "F16c"                    # system transport ∧ host word contains '@' or starts with ssh://
     if k in ("argv-dest", "argv-parse") and case["transport"] == "system" and host.strip().startswith("-") \
             and case.get("dialed_host", "").startswith("-"):
         return "F16a"                    # system transport ∧ host starts with '-'
@@ -129,6 +132,26 @@ def last(opts, ch):
     return r
 
 
+def parse_dest(word):
+    """what ssh takes out of the destination word (ssh.c main / misc.c parse_uri, the simple forms):
+    `ssh://[user@]host[:port][/path]`, else `[user@]host` split at the LAST `@` -> (user|None, host, port|None)"""
+    if word.startswith("ssh://"):
+        auth = word[6:].split("/", 1)[0]
+        user, hp = (auth.split("@", 1) + [None])[:2] if "@" in auth else (None, auth)
+        if ":" in hp:
+            h, q = hp.split(":", 1)
+            return user, h, q
+        return user, hp, None
+    if "@" in word:
+        u, h = word.rsplit("@", 1)
+        return u, h, None
+    return None, word, None
+
+
+def dest_plain(word):
+    return "@" not in word and not word.startswith("ssh://")
+
+
 # ---------------------------------------------------------------- the world: temp HOMEs, ssh config files
 # ssh config contents for the host: (name, host block, `Host *` block); block = (port, user, identity)
 VARIANTS = [
@@ -142,6 +165,10 @@ VARIANTS = [
     ("port22", (22, "", ""), None),
     ("port0", (0, "", ""), None),
     ("port830", (830, "dave", ""), None),
+    # the host listed on a multi-name Host line, after a block whose name is a proper prefix of the host's; the host's
+    # block sets all three options itself, so the expectation does not depend on how gaps are inherited (C16)
+    ("listed-after-prefix", (2222, "carl", "/opt/keys/id_cfg"), None, "listed"),
+    ("listed-after-prefix+star", (2222, "carl", "/opt/keys/id_cfg"), (2200, "staruser", ""), "listed"),
 ]
 VNAMES = [v[0] for v in VARIANTS]
 HOSTS = ["dev1", " dev1 ", "dev1\n", "\tdev1", "DEV1.example.COM", "10.0.0.1", "dev 1", "-oProxyCommand=x", "-l", "-v",
@@ -162,9 +189,12 @@ def my_expanduser(home, p):
 
 def render_cfg(hs, var):
     """ssh config text for stripped host `hs`: an unrelated entry, the host's entry, then `Host *`"""
-    _, blk, star = VARIANTS[var]
+    blk, star = VARIANTS[var][1], VARIANTS[var][2]
+    listed = len(VARIANTS[var]) > 3 and VARIANTS[var][3] == "listed" and len(hs) > 1 and " " not in hs
     out = ["# generated for C17", "Host zzz-unrelated-9", "  Port 4444", "  User nobody", ""]
-    for name, b in ((hs, blk), ("*", star)):
+    if listed:
+        out += [f"Host {hs[:-1]}", "  Port 4141", "  User decoy", "  IdentityFile /opt/keys/id_decoy", ""]
+    for name, b in ((hs + " zz-second-name-7" if listed else hs, blk), ("*", star)):
         if b is None:
             continue
         out.append(f"Host {name}")
@@ -181,7 +211,7 @@ def render_cfg(hs, var):
 def view_of(home, var, own=True):
     """what the generated config says for the host: dict(port, user, ident) — host block (only if the file was
     written for this host, `own`), gaps filled from `Host *`"""
-    _, blk, star = VARIANTS[var]
+    blk, star = VARIANTS[var][1], VARIANTS[var][2]
     res = {"port": None, "user": "", "ident": ""}
     for b in ((blk if own else None), star):
         if b is None:
@@ -400,7 +430,7 @@ def construct_real(kw, cls):
         if "could not be resolved" in m:
             return {"err": "keyUnresolvable"}
         if "`host` should be a hostname/ip address, got '" in m:
-            return {"err": "dashHost"}
+            return {"err": "dashHost" if str(kw.get("host", "")).strip().startswith("-") else "destSyntaxHost"}
         return {"err": "EXC:ScrapliValueError:" + m[:80]}
     except Exception as e:  # noqa
         return {"err": f"EXC:{type(e).__name__}:{str(e)[:80]}"}
@@ -592,7 +622,8 @@ def oracle(ck, c, facts, obs, viol):
         ok_err = (obs["err"] == "noHost" and c["host"] == "") or \
                  (obs["err"] == "keyUnresolvable" and c["key"] == "M") or \
                  (obs["err"] == "keyUnresolvable" and c["key"] == "H" and c["home"] == "empty") or \
-                 (obs["err"] == "dashHost" and hs.startswith("-"))
+                 (obs["err"] == "dashHost" and hs.startswith("-")) or \
+                 (obs["err"] == "destSyntaxHost" and not dest_plain(hs))
         if not ok_err:
             viol("constructor-error", f"constructor raised {obs['err']} for arguments inside the quantifier", **base)
         return
@@ -679,8 +710,11 @@ def oracle(ck, c, facts, obs, viol):
             sv = EMPTY_VIEW
         else:
             sv = facts["views"].get(fcfg, EMPTY_VIEW)
-        e_port = int(eff_port) if eff_port is not None and eff_port.isdigit() else (sv["port"] or 22)
-        e_user = eff_user if eff_user is not None else sv["user"]
+        # first obtained wins, and scrapli puts the destination first: a user / port inside the word beats -l / -p
+        d_user, d_host, d_port = parse_dest(p["dest"])
+        port_s = d_port if d_port is not None else eff_port
+        e_port = int(port_s) if port_s is not None and port_s.isdigit() else (sv["port"] or 22)
+        e_user = d_user if d_user is not None else (eff_user if eff_user is not None else sv["user"])
         e_key = keys[0] if keys else sv["ident"]
     else:
         e_port = obs["bta_port"]
@@ -723,13 +757,16 @@ def gen_exhaustive(tier):
     return out
 
 
-H_PLAIN = ["dev1", "DEV1.example.COM", "10.0.0.1", "dév1", "a@b", "dev1:22", "dev 1"]
+H_PLAIN = ["dev1", "DEV1.example.COM", "10.0.0.1", "dév1", "dev1:22", "dev 1"]
+H_DEST = ["admin@dev1", "ssh://carl@dev1:2222", "ssh://dev1:2222", "a@b@dev1", "ssh://carl@dev1", "SSH://x@dev1", " admin@dev1 ", "a@b"]
 H_BLANKS = [" dev1 ", "dev1\n", "\tdev1", " dev1 ", "dev1 \x0b", "  ", " dev 1"]
 H_DASH = ["-oProxyCommand=x", "-l", "-v", " -x", "-x ", "--", "-", "-p", "-F", "-vl"]
 
 
 def _pick_host(rng):
     r = rng.random()
+    if r < 0.08:
+        return rng.choice(H_DEST)
     if r < 0.45:
         return rng.choice(H_PLAIN)
     if r < 0.72:
@@ -825,13 +862,284 @@ def history_line(fx, h, mats):
     return "hist " + "|".join("+".join(model_line(fx, c, m[2]).split(" ")[1:]) for c, m in zip(h["steps"], mats))
 
 
+# ---------------------------------------------------------------- opening against recording fakes: what is handed to the library
+class _Anything:
+    """a permissive stand-in (library session / channel objects): every attribute is a callable returning another one"""
+    def __init__(self, rec=None, name=""):
+        self._rec, self._name = rec, name
+
+    def __getattr__(self, n):
+        if n.startswith("__"):
+            raise AttributeError(n)
+        return _Anything(self._rec, n)
+
+    def __call__(self, *a, **kw):
+        return _Anything(self._rec, self._name)
+
+    def __bool__(self):
+        return True
+
+
+class _RigError(Exception):
+    pass
+
+
+def recording_fakes(rec):
+    """context manager: every core transport's library boundary replaced by a recorder appending to `rec`
+    (Socket, paramiko Transport/RSAKey, ssh2 Session, asyncssh.connect, asyncio.open_connection, PtyProcess.spawn)"""
+    import contextlib, copy
+    from unittest import mock
+    import scrapli.transport.plugins.asyncssh.transport as m_asyncssh
+    import scrapli.transport.plugins.asynctelnet.transport as m_atelnet
+    import scrapli.transport.plugins.paramiko.transport as m_paramiko
+    import scrapli.transport.plugins.ssh2.transport as m_ssh2
+    import scrapli.transport.plugins.system.transport as m_system
+    import scrapli.transport.plugins.telnet.transport as m_telnet
+
+    class FakeSocket:
+        def __init__(self, host, port, timeout):
+            rec.append(("socket", host, port))
+            self.host, self.port, self.timeout, self.sock = host, port, timeout, None
+
+        def open(self):
+            self.sock = _Anything()
+
+        def isalive(self):
+            return self.sock is not None
+
+        def close(self):
+            self.sock = None
+
+        def __bool__(self):
+            return self.isalive()
+
+    class FakeParamiko(_Anything):
+        def __init__(self, sock):
+            super().__init__()
+            self._auth = False
+
+        def auth_publickey(self, username=None, key=None):
+            rec.append(("user", username)); rec.append(("key", key))
+
+        def auth_password(self, username=None, password=None):
+            rec.append(("user", username)); rec.append(("password", password))
+            self._auth = True
+
+        def is_authenticated(self):
+            return self._auth
+
+    class FakeSsh2(_Anything):
+        def __init__(self):
+            super().__init__()
+            self._auth = False
+
+        def userauth_publickey_fromfile(self, username, key, passphrase=""):
+            rec.append(("user", username)); rec.append(("key", key.decode() if isinstance(key, bytes) else key))
+
+        def userauth_password(self, username=None, password=None):
+            rec.append(("user", username)); rec.append(("password", password))
+            self._auth = True
+
+        def userauth_keyboardinteractive(self, username, password):
+            rec.append(("user", username)); rec.append(("password", password))
+            self._auth = True
+
+        def userauth_authenticated(self):
+            return self._auth
+
+    async def fake_connect(**kw):
+        rec.append(("connect", copy.deepcopy({k: v for k, v in kw.items()})))
+        raise OSError("c17 rig: no network")
+
+    async def fake_open_connection(host=None, port=None, **kw):
+        rec.append(("socket", host, port))
+        raise ConnectionRefusedError("c17 rig: connection refused")
+
+    def fake_spawn(spawn_command, **kw):
+        rec.append(("spawn", list(spawn_command), dict(kw)))
+        return _Anything()
+
+    st = contextlib.ExitStack()
+    for m in (m_paramiko, m_ssh2, m_telnet):
+        st.enter_context(mock.patch.object(m, "Socket", FakeSocket))
+    st.enter_context(mock.patch.object(m_paramiko, "_ParamikoTransport", FakeParamiko))
+    st.enter_context(mock.patch.object(m_paramiko, "RSAKey", lambda filename=None, **kw: filename))
+    st.enter_context(mock.patch.object(m_ssh2, "Session", FakeSsh2))
+    st.enter_context(mock.patch.object(m_asyncssh, "connect", fake_connect))
+    st.enter_context(mock.patch.object(m_atelnet.asyncio, "open_connection", fake_open_connection))
+    st.enter_context(mock.patch.object(m_system.PtyProcess, "spawn", staticmethod(fake_spawn)))
+    return st
+
+
+RIG_OPTION_POOL = {"asyncssh": {"kex_algs": ["curve25519-sha256"], "keepalive_interval": 7}, "open_cmd": ["-v"],
+                   "ptyprocess": {"rows": 40, "cols": 120}, "enable_rsa2": True, "paramiko": {"x": 1}, "ssh2": {}}
+
+
+def gen_open_histories(rng, n):
+    """drivers for DIFFERENT devices sharing ONE transport_options dict (and its per-plugin sub-containers) by reference,
+    opened one after the other; first the small complete scope (every transport twice, every ordered pair of transports,
+    with all option containers present), then PRNG ones"""
+    devs = [("dev1", None, "admin", ""), ("core9", 830, "bob", "A"), ("10.0.0.1", 2200, "carol", ""), ("edge-2", None, "", "A")]
+
+    def step(t, dev, cfg):
+        h, p, u, k = dev
+        return mk(transport=t, host=h, port=p, user=u, key=k, password="pw", strict=False, cfg=cfg, xvar=6, owner="dev1")
+    for t1, t2 in itertools.product(CORE, CORE):
+        yield {"steps": [step(t1, devs[0], "F"), step(t2, devs[1], "F")], "options": list(RIG_OPTION_POOL)}
+    for t in CORE:
+        yield {"steps": [step(t, devs[1], "P"), step(t, devs[0], "P"), step(t, devs[3], "P")], "options": list(RIG_OPTION_POOL)}
+        yield {"steps": [step(t, devs[2], "F"), step(t, devs[0], "F")], "options": []}
+    for _ in range(n):
+        ts = [rng.choice(CORE + ("asyncssh", "paramiko", "system"))] * 3 if rng.random() < 0.6 else [rng.choice(CORE) for _ in range(3)]
+        k = rng.choice([2, 2, 3])
+        ds = rng.sample(devs, k) if rng.random() < 0.8 else [rng.choice(devs) for _ in range(k)]
+        cfg = rng.choice(["F", "F", "P"])
+        yield {"steps": [step(t, d, cfg) for t, d in zip(ts, ds)],
+               "options": [o for o in RIG_OPTION_POOL if rng.random() < 0.6]}
+
+
+def evaluate_open_history(ck, w, h, collect):
+    """construct the drivers with one shared transport_options object, open them one after the other against the
+    recording fakes.  Oracle: what each transport hands to its library (socket address, user names, key files, asyncssh
+    connect arguments, the spawned command line) is what THAT driver reports; the caller's containers are unchanged; the
+    caller's options are passed on.  -> [(case, facts, driver obs, handed)]"""
+    import asyncio, copy
+    from scrapli.ssh_config import SSHConfig
+    steps = [dict(c) for c in h["steps"]]
+    shared = copy.deepcopy({k: RIG_OPTION_POOL[k] for k in h["options"]})
+    snap = copy.deepcopy(shared)
+    for c in steps:
+        c["extra"] = 1 if "open_cmd" in shared else 0          # EXTRAS[1] == ["-v"] == the pool's open_cmd
+    mats = [materialise(w, c) for c in steps]
+    if len({m[1] for m in mats}) != 1:
+        return []
+    os.environ["HOME"] = mats[0][1]
+    SSHConfig._config_files.clear()
+    hist = [{k: c[k] for k in list(FIELDS) + ["owner"] if k in c} for c in steps]
+
+    def rec_v(i, kind, what, **extra):
+        collect.append(({**steps[i], "kind": kind, "open_history": hist, "options": h["options"], "step": i, **extra}, what))
+    drivers = []
+    for (kw, _, _), c in zip(mats, steps):
+        kw = dict(kw)
+        kw["transport_options"] = shared                        # the SAME object for every driver
+        drivers.append(construct_real(kw, c["cls"]))
+    out = []
+    mutated = None
+    for i, (d, c, (kw, home, facts)) in enumerate(zip(drivers, steps, mats)):
+        if isinstance(d, dict):
+            rec_v(i, "constructor-error", f"constructor raised {d['err']}")
+            continue
+        rec = []
+        with recording_fakes(rec):
+            try:
+                if c["transport"] in ASYNC:
+                    asyncio.run(d.transport.open())
+                else:
+                    d.transport.open()
+            except Exception:  # noqa: the fakes refuse the connection on purpose
+                pass
+        obs = observe(d, c["transport"]) if c["transport"] != "system" else {**observe_no_build(d)}
+        handed = {"addr": [(e[1], e[2]) for e in rec if e[0] == "socket"], "users": sorted({e[1] for e in rec if e[0] == "user"}),
+                  "keys": sorted({e[1] for e in rec if e[0] == "key"}), "connect": [e[1] for e in rec if e[0] == "connect"],
+                  "spawn": [(e[1], e[2]) for e in rec if e[0] == "spawn"]}
+        out.append((c, facts, obs, handed))
+        t = c["transport"]
+        who = f"driver #{i + 1} of {len(steps)} ({t}, reports {d.host}:{d.port} user {d.auth_username!r})"
+        if shared != snap and mutated is None:
+            mutated = (i, f"open() of {who} changed the caller's transport_options: {snap} -> {shared}")
+        if t == "asyncssh":
+            if len(handed["connect"]) != 1:
+                rec_v(i, "rig", f"{who}: asyncssh.connect called {len(handed['connect'])} times")
+                continue
+            k = handed["connect"][0]
+            got = (k.get("host"), k.get("port"), k.get("username"), k.get("client_keys"), k.get("config"), k.get("password"))
+            want = (d.host, d.port, d.auth_username, d.auth_private_key, d.ssh_config_file, d.auth_password)
+            if got != want:
+                rec_v(i, "handed-ne-reported", f"{who}: asyncssh.connect got host/port/username/client_keys/config/password {got}, "
+                                               f"the driver reports {want}", dialed_host=str(k.get("host")))
+            for ok, ov in snap.get("asyncssh", {}).items():
+                if k.get(ok) != ov:
+                    rec_v(i, "options-not-passed", f"{who}: transport_options['asyncssh'][{ok!r}]={ov!r} reached connect as {k.get(ok)!r}")
+        elif t == "system":
+            if len(handed["spawn"]) != 1:
+                rec_v(i, "rig", f"{who}: PtyProcess.spawn called {len(handed['spawn'])} times")
+                continue
+            argv, pk = handed["spawn"][0]
+            try:
+                p = parse_ssh_argv(argv)
+                got = (p["dest"], first(p["opts"], "p"), first(p["opts"], "l") or "", first(p["opts"], "i") or "")
+            except ArgvError as e:
+                got = ("<" + str(e) + ">",)
+            want = (d.host, str(d.port), d.auth_username, d.auth_private_key)
+            if got != want:
+                rec_v(i, "handed-ne-reported", f"{who}: ssh was spawned as {argv} = destination/-p/-l/-i {got}, the driver reports {want}",
+                      dialed_host=argv[1] if len(argv) > 1 else "")
+            if argv[len(argv) - len(snap.get("open_cmd", [])):] != snap.get("open_cmd", []) and snap.get("open_cmd"):
+                rec_v(i, "options-not-passed", f"{who}: open_cmd {snap['open_cmd']} is not at the end of {argv}")
+            for ok, ov in snap.get("ptyprocess", {}).items():
+                if pk.get(ok) != ov:
+                    rec_v(i, "options-not-passed", f"{who}: transport_options['ptyprocess'][{ok!r}]={ov!r} reached spawn as {pk.get(ok)!r}")
+        else:
+            if handed["addr"] != [(d.host, d.port)]:
+                rec_v(i, "handed-ne-reported", f"{who}: the connection was opened to {handed['addr']}",
+                      dialed_host=str(handed["addr"][0][0]) if handed["addr"] else "")
+            if "telnet" not in t:
+                if handed["users"] not in ([d.auth_username], []):
+                    rec_v(i, "handed-ne-reported", f"{who}: authenticated as {handed['users']}")
+                if handed["keys"] != ([d.auth_private_key] if d.auth_private_key else []):
+                    rec_v(i, "handed-ne-reported", f"{who}: key files used {handed['keys']}, the driver reports {d.auth_private_key!r}")
+    if mutated is not None:                       # reported after what the later drivers did with the changed container
+        rec_v(mutated[0], "transport-options-mutated", mutated[1])
+    for d in drivers:
+        try:
+            if not isinstance(d, dict):
+                d.transport.close()
+        except Exception:  # noqa
+            pass
+    return out
+
+
+def observe_no_build(d):
+    """observables of a system-transport driver whose open_cmd open() has already built (do not rebuild it)"""
+    import dataclasses
+    t = d.transport
+    b = t._base_transport_args
+    return {"host": d.host, "port": d.port, "user": d.auth_username, "password": d.auth_password, "key": d.auth_private_key,
+            "passphrase": d.auth_private_key_passphrase, "strict": d.auth_strict_key, "cfg": d.ssh_config_file,
+            "kh": d.ssh_known_hosts_file, "bta_host": b.host, "bta_port": b.port, "same_bta": b is d._base_transport_args,
+            "plugin": [(f.name, getattr(t.plugin_transport_args, f.name)) for f in dataclasses.fields(t.plugin_transport_args)],
+            "argv": list(t.open_cmd)}
+
+
+def handed_as_eff(c, obs, handed):
+    """the recorded library calls in the model's `EF=` syntax (host:port:user:key), or None where the model's notion
+    of `effective` is not a plain record of calls (system transport: compared through the spawned argv instead)"""
+    t = c["transport"]
+    if t == "system":
+        return None
+    if t == "asyncssh":
+        if len(handed["connect"]) != 1:
+            return None
+        k = handed["connect"][0]
+        return f"ok:{hx(str(k.get('host')))}:{hx(str(k.get('port')))}:{hx(k.get('username') or '')}:{hx(k.get('client_keys') or '')}"
+    if len(handed["addr"]) != 1:
+        return None
+    user = handed["users"][0] if len(handed["users"]) == 1 else ""
+    key = handed["keys"][0] if len(handed["keys"]) == 1 else ""
+    if "telnet" in t:
+        user = key = ""
+    return f"ok:{hx(str(handed['addr'][0][0]))}:{hx(str(handed['addr'][0][1]))}:{hx(user)}:{hx(key)}"
+
+
 def gen_argv(rng):
     """random ssh command lines for the grammar cross-check (model vs oracle parser vs real ssh)"""
     words = ["ssh"]
     pool_flags = ["-v", "-q", "-4", "-6", "-A", "-a", "-C", "-T", "-t", "-x", "-N", "-n", "-k", "-vv", "-Tq"]
     pool_args = [("-p", "2022"), ("-l", "bob"), ("-i", "/tmp/idx"), ("-F", "/dev/null"), ("-o", "ConnectTimeout=5"),
                  ("-o", "StrictHostKeyChecking=no"), ("-e", "none"), ("-l", "bob2"), ("-i", "-v"), ("-p", "22"), ("-S", "none")]
-    dests = ["dev1", "DEV1", "10.0.0.1", "-oProxyCommand=x", "-l", "-v", "--", "-", "-p", "-vp", "-Z", "--x", "dev1.example.com"]
+    dests = ["dev1", "DEV1", "10.0.0.1", "-oProxyCommand=x", "-l", "-v", "--", "-", "-p", "-vp", "-Z", "--x", "dev1.example.com",
+             "admin@dev1", "ssh://carl@dev1:2222", "ssh://dev1:2022", "a@b@dev1"]
 
     def some_opts(n):
         for _ in range(n):
@@ -888,8 +1196,9 @@ WITNESSES = [
     ("F15c", mk(transport="telnet", host=" dev1 "), "stripDialedHost"),
     ("F16a", mk(transport="system", host="-oProxyCommand=x"), "rejectDashHost"),
     ("F16b", mk(transport="system", cfg="P", xvar=1), None),
+    ("F16c", mk(transport="system", host="admin@dev1", user="bob"), "rejectDestSyntax"),
 ]
-FLAG_ORDER = ("stripDialedHost", "cfgPortDialed", "explicitPortWins", "rejectDashHost")
+FLAG_ORDER = ("stripDialedHost", "cfgPortDialed", "explicitPortWins", "rejectDashHost", "rejectDestSyntax")
 
 
 def evaluate(ck, w, c, collect):
@@ -929,7 +1238,12 @@ def run(tier, seed):
                "x user x key) on one config + PRNG histories (mixed transports, same host / other host of the same `Host *` block, "
                "ssh_config_file path|True|False|missing): each driver must equal the same construction alone, nothing reported by an "
                "earlier driver may change, the cached parse must still equal the file, the caller's dict must be unchanged; the model's "
-               "runHistory is compared with the real sequence.")
+               "runHistory is compared with the real sequence. OPEN HISTORIES: drivers for different devices sharing ONE transport_options dict "
+               "(asyncssh / paramiko / ssh2 sub-dicts, open_cmd list, ptyprocess dict, enable_rsa2) by reference, every ordered pair of core "
+               "transports + each transport 3x + PRNG, open()ed one after the other against recording fakes at the library boundary "
+               "(Socket, paramiko Transport/RSAKey, ssh2 Session, asyncssh.connect, asyncio.open_connection, PtyProcess.spawn): socket "
+               "address / user names / key files / connect arguments / spawned argv must be what THAT driver reports and what the model "
+               "says is in effect, the caller's containers must be unchanged, the caller's options must be passed on.")
     ck.trusted = ["Lean 4.33.0 kernel; axioms of every theorem audited ⊆ {propext, Classical.choice, Quot.sound}",
                   "tools/gen/c17.py (constructor defaults, default ports, transports consulting the ssh config, magic strings, "
                   "fall-back paths, PluginTransportArgs field names, argv literals read off the real _build_open_cmd)",
@@ -988,6 +1302,13 @@ def _run(ck, w, tier):
     _ACTIVE = active      # generated violations are attributed to a finding only while its stored witness still fails
     for x in wit_other:
         ck.violation(x[0], x[1], matcher)
+    try:                                  # the translator's probed decision table must tell the same story as the witnesses
+        import gen.c17 as _g
+        for tname, fname in (("updCfgPortDialed", "cfgPortDialed"), ("updExplicitPortWins", "explicitPortWins")):
+            if tname in _g.LAST and _g.LAST[tname] != flags[fname]:
+                ck.proof_broken("probed update table vs stored witnesses", f"{tname}={_g.LAST[tname]} but witness replay says {fname}={flags[fname]}")
+    except ImportError:
+        pass
     ck.extra["code_variant"] = {n: flags[n] for n in FLAG_ORDER}
     ck.extra["code_variant_note"] = ("flags = which proposed fixes/C17-*.patch the tree under test already has (found by replaying "
                                      "the stored witnesses); the Lean model is run with the same flags, theorems cover every "
@@ -1057,6 +1378,27 @@ def _run(ck, w, tier):
     n_single = len(lines)
     lines += [history_line(fxs, h, mats) for h, mats, _ in hist_runs]
     ck.extra["histories"] = len(hist_runs)
+    # 5c open histories: drivers for different devices sharing one transport_options object, opened against recording fakes
+    open_runs = []
+    n_open_hist = 0
+    for h in gen_open_histories(ck.rng, 150 if tier == "quick" else 2500):
+        got = []
+        res = evaluate_open_history(ck, w, h, got)
+        if not res:
+            continue
+        n_open_hist += 1
+        st = h["steps"]
+        ck.case(("open-history", tuple(h["options"]), tuple(tuple(sorted((k, str(v)) for k, v in c.items())) for c in st)),
+                nontrivial=len(st) > 1 and bool(h["options"]),
+                sample={"open_history": [{k: c[k] for k in ("transport", "host", "port", "user", "key")} for c in st], "shared_options": h["options"]},
+                tags=(f"open-history-len={len(st)}", "open-history-one-transport" if len({c["transport"] for c in st}) == 1 else "open-history-mixed",
+                      "shared-options" if h["options"] else "no-options") + tuple(f"opened={c['transport']}" for c in st))
+        for vc, what in got:
+            ck.violation(vc, what, matcher)
+        open_runs += res
+    n_before_open = len(lines)
+    lines += [model_line(fxs, c, facts) for c, facts, _, _ in open_runs]
+    ck.extra["open_histories"] = {"histories": n_open_hist, "transports_opened": len(open_runs)}
     # grammar cross-check inputs
     argvs = [gen_argv(ck.rng) for _ in range(600 if tier == "quick" else 6000)]
     argvs += [o["argv"] for _, _, o in reals[:400] if o.get("argv")]
@@ -1089,7 +1431,22 @@ def _run(ck, w, tier):
                 ck.disagree("runHistory model vs drivers constructed in one process", {"history": h["steps"]}, f"impl={real} model={ml}")
             else:
                 ck.traces_validated += 1
-        base = n_single + len(hist_runs)
+        for (c, facts, obs, handed), ml in zip(open_runs, mout[n_before_open:n_before_open + len(open_runs)]):
+            real = canon_real(obs)
+            if real != ml.split(" PR=")[0]:
+                ck.disagree("Resolve model vs driver opened in a history", c, f"impl={real} model={ml.split(' PR=')[0]}")
+                continue
+            eff = handed_as_eff(c, obs, handed)
+            if c["transport"] == "system":
+                sp = handed["spawn"]
+                if len(sp) == 1 and hxl(sp[0][0]) != ml.split(" AV=")[1].split(" PR=")[0]:
+                    ck.disagree("buildOpenCmd model vs the command line open() spawned", c, f"spawned={sp[0][0]} model={ml.split(' AV=')[1].split(' PR=')[0]}")
+                    continue
+            elif eff is not None and " EF=" in ml and eff != ml.split(" EF=")[1]:
+                ck.disagree("effective (model) vs what open() handed to the library", c, f"recorded={eff} model={ml.split(' EF=')[1]}")
+                continue
+            ck.traces_validated += 1
+        base = n_before_open + len(open_runs)
         for a, ml in zip(argvs, mout[base:]):
             if ml != enc_parse(a):
                 ck.disagree("parseSshArgv model vs oracle parser", {"argv": a}, f"model={ml} oracle={enc_parse(a)}")
@@ -1123,6 +1480,8 @@ def _run(ck, w, tier):
                     ck.violation(vc, what, matcher)
     if tier != "thorough" and not ck.violations and any(k == "proof" and "translator" in n for k, n, _ in ck.broken):
         _loopback_dial(ck, w)        # the translator also guards the dial sites: look for a failing input by really dialing
+    # headline = a violation of what is in effect, rather than the container mutation that causes it
+    ck.violations.sort(key=lambda x: x["case"].get("kind") in ("transport-options-mutated", "shared-cache-mutated", "options-not-passed"))
     if ck.violations and "transport" in ck.violations[0]["case"] and not ck.violations[0]["case"].get("loopback"):
         ck.violations[0] = _shrink(ck, w, ck.violations[0])
     return ck.finish()
@@ -1133,6 +1492,8 @@ def _shrink(ck, w, v):
     violation (not attributable to a known finding) is still observed"""
     if "history" in v["case"]:
         return _shrink_history(ck, w, v)
+    if "open_history" in v["case"]:
+        return _shrink_open_history(ck, w, v)
     c = {k: v["case"][k] for k in FIELDS}
     kind, best = v["case"]["kind"], v
 
@@ -1194,16 +1555,53 @@ def _shrink_history(ck, w, v):
     return best
 
 
-def _ssh_hostname(dest):
-    """how `ssh -G` prints the destination: user@ removed, lower case, numeric forms (`2022`, `10.1`) as dotted quad"""
+def _shrink_open_history(ck, w, v):
+    """drop drivers and shared option containers while a violation of the same kind is still observed"""
+    kind = v["case"]["kind"]
+    h = {"steps": [mk(**st) for st in v["case"]["open_history"]], "options": list(v["case"]["options"])}
+    best = v
+
+    def still(hh):
+        got = []
+        try:
+            evaluate_open_history(ck, w, hh, got)
+        except Exception:
+            return None
+        for vc, what in got:
+            if vc["kind"] == kind and matcher(vc) is None:
+                return {"what": what, "case": vc}
+        return None
+    j = 0
+    while len(h["steps"]) > 1 and j < len(h["steps"]):
+        hh = {**h, "steps": h["steps"][:j] + h["steps"][j + 1:]}
+        r = still(hh)
+        if r is not None:
+            h, best = hh, r
+        else:
+            j += 1
+    for o in list(h["options"]):
+        hh = {**h, "options": [x for x in h["options"] if x != o]}
+        r = still(hh)
+        if r is not None:
+            h, best = hh, r
+    return best
+
+
+def _norm_hostname(h):
+    """how `ssh -G` prints a host name: lower case, numeric forms (`2022`, `10.1`) as dotted quad"""
     import socket
-    h = dest.split("@")[-1].lower()
+    h = h.lower()
     if h and all(ch.isdigit() or ch == "." for ch in h):
         try:
             return socket.inet_ntoa(socket.inet_aton(h))
         except OSError:
             pass
     return h
+
+
+def _ssh_hostname(dest):
+    """the host name ssh takes out of a destination word, as `ssh -G` prints it"""
+    return _norm_hostname(parse_dest(dest)[1])
 
 
 def _ssh_cross_check(ck, w, tier, argvs, reals):
@@ -1241,22 +1639,26 @@ def _ssh_cross_check(ck, w, tier, argvs, reals):
         bad = []
         if d.get("hostname", [""])[0] != _ssh_hostname(p["dest"]):
             bad.append(f"hostname {d.get('hostname')} vs dest {p['dest']!r}")
-        pp = first(p["opts"], "p")
+        du, _, dp = parse_dest(p["dest"])
+        o1 = _getopt_pass(a, 1)[0]                                    # options BEFORE the destination (first obtained wins)
+        pp = first(o1, "p") or dp or first(p["opts"], "p")
         if d.get("port", [""])[0] != (pp if pp is not None else "22"):
-            bad.append(f"port {d.get('port')} vs -p {pp!r}")
-        lu = first(p["opts"], "l")
-        if lu is not None and "@" not in p["dest"] and d.get("user", [""])[0] != lu:
-            bad.append(f"user {d.get('user')} vs -l {lu!r}")
+            bad.append(f"port {d.get('port')} vs destination/-p {pp!r}")
+        lu = first(o1, "l") or du or first(p["opts"], "l")
+        if lu is not None and d.get("user", [""])[0] != lu:
+            bad.append(f"user {d.get('user')} vs destination/-l {lu!r}")
         if bad:
             ck.disagree("OpenSSH grammar model vs real `ssh -G`", {"argv": a}, "; ".join(bad))
         else:
             ck.traces_validated += 1
     # scrapli's own command lines with an explicit -F: what does the real ssh say is in effect
     e2e = viol = 0
-    for c, facts, obs in reals:
+    special = [x for x in reals if not dest_plain(x[0]["host"])][:20 if tier == "quick" else 200]
+    for c, facts, obs in special + reals:
         if e2e >= (60 if tier == "quick" else 600):
             break
-        if not obs.get("argv") or facts["extra"] or c["host"] != c["host"].strip() or not c["host"].replace(".", "").isalnum():
+        if not obs.get("argv") or facts["extra"] or c["host"] != c["host"].strip() or \
+                not c["host"].replace(".", "").replace("@", "").replace("ssh://", "").replace(":", "").isalnum():
             continue
         fcfg = last(parse_ssh_argv(obs["argv"])["opts"], "F")
         if fcfg is None or any(ch.isspace() for x in obs["argv"] for ch in x):
@@ -1273,7 +1675,7 @@ def _ssh_cross_check(ck, w, tier, argvs, reals):
         want_port = c["port"] if c["port"] is not None else (view["port"] or 22)
         got_port = int(d["port"][0])
         case = {**c, "cfg_port": view["port"] or None, "dialed_host": obs["bta_host"]}
-        if d["hostname"][0] != obs["host"].lower():
+        if d["hostname"][0] != _norm_hostname(obs["host"]):
             ck.violation({**case, "kind": "argv-dest"}, f"real ssh connects to {d['hostname'][0]!r}, driver reports {obs['host']!r}", matcher)
         if got_port != obs["port"]:
             ck.violation({**case, "kind": "argv-port"}, f"real ssh uses port {got_port}, driver reports {obs['port']}", matcher)
@@ -1434,6 +1836,14 @@ def replay(path):
                 print("VIOLATES:", x["case"]["kind"], "-", x["what"])
             print(ck.extra.get("loopback_dial"))
             return 1 if ck.violations else 0
+        if "open_history" in v:
+            h = {"steps": [mk(**st) for st in v["open_history"]], "options": list(v.get("options", []))}
+            got = []
+            for c, facts, obs, handed in evaluate_open_history(ck, w, h, got):
+                print(f"{c['transport']} driver reports {obs['host']}:{obs['port']} user {obs['user']!r} key {obs['key']!r}\n   handed to the library: {handed}")
+            for vc, what in got:
+                print("VIOLATES:", vc["kind"], f"(driver #{vc['step'] + 1}) -", what, "| finding:", matcher(vc))
+            return 1 if got else 0
         if "history" in v:
             h = {"steps": [mk(**st) for st in v["history"]], "share_opts": v.get("share_opts", False)}
             got = []
